@@ -119,6 +119,25 @@ class Interp:
                     raise Crash(f"cannot unpack {v!r} in `{src(s)[:50]}`")
                 for e, x in zip(s.targets[0].elts, v):
                     env[e.id] = x
+            elif (
+                isinstance(s, ast.Assign)
+                and len(s.targets) == 1
+                and isinstance(s.targets[0], (ast.Tuple, ast.List))
+                and sum(isinstance(e, ast.Starred) for e in s.targets[0].elts) == 1
+                and all(isinstance(e.value if isinstance(e, ast.Starred) else e, ast.Name) for e in s.targets[0].elts)
+            ):
+                v = self.eval(s.value, env)
+                elts = s.targets[0].elts
+                if not isinstance(v, (tuple, list)) or len(v) < len(elts) - 1:
+                    raise Crash(f"cannot unpack {v!r} in `{src(s)[:50]}`")
+                k = next(i for i, e in enumerate(elts) if isinstance(e, ast.Starred))
+                tail = len(elts) - k - 1
+                seq = list(v)
+                for e, x in zip(elts[:k], seq[:k]):
+                    env[e.id] = x
+                env[elts[k].value.id] = seq[k : len(seq) - tail]  # a starred target always receives a list
+                for e, x in zip(elts[k + 1 :], seq[len(seq) - tail :]):
+                    env[e.id] = x
             elif isinstance(s, ast.AugAssign) and isinstance(s.target, ast.Name):
                 env[s.target.id] = self.eval(ast.BinOp(left=ast.Name(s.target.id, ast.Load()), op=s.op, right=s.value), env)
             elif isinstance(s, ast.AnnAssign) and isinstance(s.target, ast.Name):
